@@ -1,6 +1,7 @@
 """Per-property checks. Each function fills a Report; verdicts come from TLC output only."""
 import json, os, re, subprocess, time
 from vlib import *
+from vlib import RE_GROUP
 from concurrent.futures import ThreadPoolExecutor
 
 TRUSTED = ["TLC 1.8 (tla2tools.jar) and CommunityModules", "harness encoder/observer in /verif/harness (mechanical, no expected values)",
@@ -41,20 +42,20 @@ TILE_FIELDS = {"tilemap.size", "tilemap.tile_size", "tilemap.tile_offsets", "til
 UD_FIELDS = {"user_data.layer", "user_data.cel", "user_data.tag", "user_data.slice", "user_data.sprite"}
 # which observation fields (names printed by TLC) concern which property; None = every field
 FIELDS = {
-    "C01": STRUCT_FIELDS | {"load_result"},
-    "C02": {"frame.image", "frames_complete"},
+    "C01": STRUCT_FIELDS | {"load_result_err"},
+    "C02": {"frame.image", "frames_complete", "frame.uncovered_pixels_transparent"},
     "C06": {"cel.image", "cel.facts", "cels_complete"},
-    "C07": None,
+    "C07": {"variant_result_differs", "variant_observation_differs"},
     "C08": TILE_FIELDS | {"tilemap.image_is_cel_image"},
-    "C09": {"parents", "visible", "frame.image"},
+    "C09": {"parents", "visible", "frame.uncovered_pixels_transparent"},
     "C10": UD_FIELDS | {"parser_state_after_chunk"},
-    "C11": {"palette", "load_result"},
-    "C16": None,
+    "C11": {"palette", "load_result_ok", "load_result_err"},
+    "C16": {"second_load_differs", "profile_pair_differs"},
     "C19": {"cel.routes_agree", "frame.single_layer_equals_cel", "tilemap.image_is_cel_image"},
     "C04": {"crash"},
     "C05": {"panics", "usable"},
     "C12": {"memory_bound"},
-    "C15": {"load_result"},
+    "C15": {"load_result_ok"},
 }
 
 
@@ -79,7 +80,9 @@ def relevant_sig(pid, sig, fields=None):
         res = sig.split(":")[1]
         if res in ("panic", "abort", "hang", "stack_overflow", "killed"):
             return sig if "crash" in allowed or (res in ("abort", "killed") and "memory_bound" in allowed) else None
-        return sig if "load_result" in allowed else None
+        # "ok": a file the specification says must fail was accepted; "err:*": a well-formed file was refused
+        tag = "load_result_ok" if res == "ok" else "load_result_err"
+        return sig if tag in allowed else None
     return sig if kind in allowed else None
 
 
@@ -218,19 +221,31 @@ def write_cases(path, it):
 
 
 def batched_stage(rep, work, binpath, cases, name, batch=30000, **kw):
-    """stage_cases in batches so that traces on disk stay small."""
+    """stage_cases in batches so that traces on disk stay small (a batch never splits a "group")."""
     total = {"outcomes": [0, 0, 0, 0], "rejects": [], "errors": [], "generated": 0, "distinct": 0}
+    def group_of(line):
+        m = RE_GROUP.search(line[:300])
+        return m.group(1) if m else None
     with open(cases) as f:
         k = 0
+        pending = None
         while True:
             part = work.path(f"{name}.b{k}.ndjson")
             n = 0
+            cur = None
             with open(part, "w") as o:
-                for line in f:
-                    o.write(line)
-                    n += 1
-                    if n >= batch:
+                while True:
+                    line = pending if pending is not None else f.readline()
+                    pending = None
+                    if not line:
                         break
+                    g = group_of(line)
+                    if n >= batch and (g is None or g != cur):
+                        pending = line
+                        break
+                    o.write(line)
+                    cur = g
+                    n += 1
             if n == 0:
                 os.remove(part)
                 break
@@ -321,8 +336,8 @@ def c09(rep, work, tier, seed):
     import random
     rnd = random.Random(seed)
     def deep_cases():
-        for i in range(20 if tier == "quick" else 200):
-            depth = rnd.choice([9, 17, 40, 120, 200])
+        for i in range(12 if tier == "quick" else 150):
+            depth = rnd.choice([9, 17, 40, 90] if tier == "quick" else [9, 17, 40, 120, 200])
             lv, vis = [], []
             for j in range(depth):
                 lv.append(0 if j == 0 else rnd.randint(max(0, lv[-1] - 2), lv[-1] + 1))
@@ -1047,15 +1062,62 @@ def c16(rep, work, tier, seed):
     # (a) same bytes loaded twice, observed twice: equal observations; validated against the specification as well
     cases = work.path("twice.ndjson")
     gen(b, cases, "default", seed + 11, 150 if tier == "quick" else 4000, twice=True)
-    res = stage_cases(rep, work, b, cases, "load-twice", fields=None)
+    res = stage_cases(rep, work, b, cases, "load-twice")
     need_ok(rep, res, "load-twice", 0.95)
-    # (b) optimised build without overflow checks (wrapping arithmetic): same observations, same blend results
+    # (b) optimised build without overflow checks (wrapping arithmetic) against the unoptimised build with checks:
+    #     same cases / same vectors through both binaries, merged pairwise, TLC demands equality
     rel = build("release")
     cases2 = work.path("rel.ndjson")
-    gen(rel, cases2, "render", seed + 12, 200 if tier == "quick" else 5000)
-    res2 = stage_cases(rep, work, rel, cases2, "release-profile", fields=None)
-    for stratum, n in (("random", 40000 if tier == "quick" else 1000000), ("lattice", 30000 if tier == "quick" else 500000)):
-        blend_stage(rep, work, rel, stratum, seed + 13, n, BLEND_C03 | BLEND_C17)
+    gen(b, cases2, "render", seed + 12, 200 if tier == "quick" else 5000)
+    pair_trace = work.path("pairs.ndjson")
+    npairs = 0
+    with open(pair_trace, "w") as po:
+        obs = {}
+        for tag, binp in (("dev", b), ("release", rel)):
+            outs, n, crashes = run_workers(binp, cases2, work.path(f"pair-{tag}"), shards=8)
+            for o in outs:
+                for line in open(o):
+                    if line.startswith('{"case"') and ('"ev":"obs"' in line[:200] or '"ev":"end"' in line[:200]):
+                        e = json.loads(line)
+                        obs.setdefault(e["case"], {}).setdefault(tag, {})[e["ev"]] = e.get("obs", e.get("result"))
+                os.remove(o)
+        for cid, d in obs.items():
+            for what in ("end", "obs"):
+                if what in d.get("dev", {}) or what in d.get("release", {}):
+                    po.write(json.dumps({"ev": "pair", "case": cid, "what": "load result" if what == "end" else "observation",
+                                         "a": d.get("dev", {}).get(what, "missing"), "b": d.get("release", {}).get(what, "missing")}) + "\n")
+                    npairs += 1
+        # blend vectors: same seed => same vectors in both profiles
+        for stratum, n in (("random", 20000 if tier == "quick" else 600000), ("lattice", 20000 if tier == "quick" else 400000)):
+            files = {}
+            for tag, binp in (("dev", b), ("release", rel)):
+                prefix = work.path(f"blp-{stratum}-{tag}")
+                r = subprocess.run([binp, "blend", "--stratum", stratum, "--seed", str(seed + 13), "--n", str(n), "--out", prefix, "--shards", "1"], capture_output=True, text=True)
+                if r.returncode != 0:
+                    raise ToolError("blend driver failed: " + r.stderr[-300:])
+                files[tag] = prefix + ".0"
+            with open(files["dev"]) as fa, open(files["release"]) as fb:
+                for la, lb in zip(fa, fb):
+                    ea, eb = json.loads(la), json.loads(lb)
+                    po.write(json.dumps({"ev": "pair", "case": "blend", "what": f"blend {stratum} m={ea['m']} lop={ea['lop']} cop={ea['cop']}",
+                                         "a": {"B": ea["B"], "S": ea["S"], "R": ea["R"], "panic": ea["panic"]},
+                                         "b": {"B": eb["B"], "S": eb["S"], "R": eb["R"], "panic": eb["panic"]}}) + "\n")
+                    npairs += 1
+            for fpath in files.values():
+                os.remove(fpath)
+    pshards, _ = split_lines(pair_trace, 8, work.path("pairs.sh"))
+    resP = validate_traces("Trace_Load", pshards, jvms=8)
+    rep.add_model(resP["generated"], resP["distinct"])
+    for e in resP["errors"]:
+        rep.error(f"profile pairs: {e}")
+    for rej in resP["rejects"]:
+        rep.violation(sig_of_reject(rej), re.sub(r"\s+", " ", rej)[:800], {"property": "C16", "stage": "profile-pairs", "tlc": rej, "seed": seed})
+    rep.stage("profile-pairs", pairs=npairs, evaluated=resP["outcomes"][3], rejects=len(resP["rejects"]))
+    log(f"[C16] profile pairs: {npairs} pairs, evaluated {resP['outcomes'][3]}, rejects {len(resP['rejects'])}")
+    if resP["outcomes"][3] != npairs:
+        rep.error(f"profile pairs: {npairs} written, {resP['outcomes'][3]} evaluated")
+    rep.cov["traces_validated_against_impl"] += npairs
+    res2 = {"outcomes": [npairs, 0, 0, 0]}
     # (c) threads
     if threads_bin:
         enc = work.path("enc.ndjson")
